@@ -1,11 +1,12 @@
 //! slicec-bounded <check>   -- prints one JSON object per counterexample (at most 5) and a summary.
-//! checks: plugin (C19)  preproc (C06)  decode (C11)  totals (C07)  visitor (C20)  fileset (C17)  lexical (C01)
+//! checks: plugin (C19)  preproc (C06)  decode (C11)  totals (C07)  visitor (C20)  fileset (C17)  lexical (C01)  snippet (C09)
 use std::collections::{BTreeMap, HashMap, HashSet};
 
 mod oracle_fileset;
 mod oracle_lexical;
 mod oracle_plugin;
 mod oracle_preproc;
+mod oracle_snippet;
 mod oracle_visitor;
 
 fn js(s: &str) -> String {
@@ -93,9 +94,10 @@ fn main() {
         "visitor" => oracle_visitor::run(),
         "fileset" => oracle_fileset::run(),
         "lexical" => oracle_lexical::run(),
+        "snippet" => oracle_snippet::run(),
         "one" => oracle_lexical::one(&std::env::args().nth(2).unwrap_or_default()),
         _ => {
-            eprintln!("usage: slicec-bounded plugin|preproc|decode|totals|visitor|fileset|lexical");
+            eprintln!("usage: slicec-bounded plugin|preproc|decode|totals|visitor|fileset|lexical|snippet");
             2
         }
     };
